@@ -36,6 +36,7 @@ Record bw (b : book) : Prop := {
   bw_ix : ix_eq b;
   bw_keys : NoDup (map ekey (bk_expo b));
   bw_expo : forall e, In e (bk_expo b) -> In (e_odds e) odds /\ exists p, get_part b (e_part e) = Some p;
+  bw_hist : forall h, In h (bk_hist b) -> exists p, get_part b (e_part h) = Some p;
   bw_qkeys : map fst (bk_queues b) = odds;
   bw_parts : forall p, In p (bk_parts b) -> pw b (p_idx p) p }.
 
@@ -810,6 +811,8 @@ Proof.
   - intros e He. destruct (ekeys_in _ _ _ st_ekeys0 He) as (e0 & H0 & Hk). unfold ekey in Hk. injection Hk as Hk1 Hk2.
     destruct (bw_expo0 e0 H0) as [X1 (p & X2)]. rewrite <- Hk1, <- Hk2. split; [exact X1|].
     destruct (Z.eq_dec (e_part e0) idx) as [->|Hne]; [exists p3; exact st_gp_same0|exists p; rewrite st_gp_other0 by exact Hne; exact X2].
+  - intros h Hh. rewrite st_hist0 in Hh. destruct (bw_hist0 h Hh) as (p & X).
+    destruct (Z.eq_dec (e_part h) idx) as [->|Hne]; [exists p3; exact st_gp_same0|exists p; rewrite st_gp_other0 by exact Hne; exact X].
   - rewrite st_qkeys0. exact bw_qkeys0.
   - intros p Hp. destruct (Z.eq_dec (p_idx p) idx) as [Hi|Hne].
     + assert (p = p3). { pose proof (gp_of_in _ _ Hnd2 Hp) as G. rewrite Hi, st_gp_same0 in G. congruence. }
@@ -860,6 +863,10 @@ Proof.
   - intros e He. destruct (rf_expo_in0 e He) as (e0 & H0 & Hk). unfold ekey in Hk. injection Hk as Hk1 Hk2.
     destruct (bw_expo0 e0 H0) as [X1 (p & X2)]. rewrite <- Hk1, <- Hk2. split; [exact X1|].
     destruct (Z.eq_dec (e_part e0) idx) as [->|Hne]; [eexists; exact rf_gp_same0|exists p; rewrite rf_gp_other0 by exact Hne; exact X2].
+  - intros h Hh. rewrite rf_hist0 in Hh. apply in_app_or in Hh. destruct Hh as [Hh|Hh].
+    + destruct (bw_hist0 h Hh) as (p & X).
+      destruct (Z.eq_dec (e_part h) idx) as [->|Hne]; [eexists; exact rf_gp_same0|exists p; rewrite rf_gp_other0 by exact Hne; exact X].
+    + apply in_filter_part in Hh. destruct Hh as [_ Hp]. rewrite Hp. eexists. exact rf_gp_same0.
   - rewrite rf_qkeys0. exact bw_qkeys0.
   - intros p Hp. destruct (Z.eq_dec (p_idx p) idx) as [Hi|Hne].
     + assert (p = reset_part A p3). { pose proof (gp_of_in _ _ Hnd5 Hp) as G. rewrite Hi, rf_gp_same0 in G. congruence. }
